@@ -137,6 +137,19 @@ def stStep (s : State) (args : List String) : State × String :=
       let (r, s') := s.annotate (if id = "~" then none else some id) t dl
       (s', showResp r)
     | _, _ => (s, "bad-op")
+  | "batch" :: items =>
+    -- `batch id^target^data^data… …`: `annotate_from_iter`
+    let parsed : List (Option Item) := items.map (fun it =>
+      match it.splitOn "^" with
+      | id :: tgt :: ds =>
+        match parseTargetReq tgt, ds.mapM parseDataReq with
+        | some t, some dl => some ⟨if id = "~" then none else some id, t, dl⟩
+        | _, _ => none
+      | _ => none)
+    if parsed.any Option.isNone then (s, "bad-op") else
+    match annotateAll s (parsed.filterMap id) with
+    | (some hs, s') => (s', "ok " ++ ",".intercalate hs)
+    | (none, s') => (s', "err")
   | ["rmann", a] => let (r, s') := s.rmAnn (parseRef a); (s', showResp r)
   | ["rmdata", set, d, strict] => let (r, s') := s.rmData set (parseRef d) (strict = "1"); (s', showResp r)
   | ["rmkey", set, k, strict] => let (r, s') := s.rmKey set k (strict = "1"); (s', showResp r)
